@@ -44,6 +44,7 @@ void FunctorManager::reset(const FunctorManager& fm)
   if (&fm == this)
     return;
   _backed.reset();
+  _journal.clear();
   _declarations.clear();
   // don't copy the cache of context
   for (const Entry& e : fm._declarations)
@@ -75,14 +76,19 @@ bool FunctorManager::nameExists(const std::string& name) const
 FunctorManager::Entry& FunctorManager::createOrReplace(const std::string& name, const std::vector<Symbol>& params)
 {
   _backed.reset();
+  unsigned id = 0;
   for (Entry& e : _declarations)
   {
     if (e.functor->name == name && e.functor->params.size() == params.size())
     {
       /* back up current declaration */
       _backed.swap(e.functor);
+      _journal.emplace_back(id, _backed);
+      /* the cached contexts were made for the replaced one */
+      e.clearCache();
       return e;
     }
+    ++id;
   }
   _declarations.emplace_back(Entry(FunctorPtr(new Functor())));
   return _declarations.back();
@@ -111,6 +117,28 @@ void FunctorManager::rollback()
     /* remove last created */
     _declarations.pop_back();
   }
+}
+
+void FunctorManager::parsingMark()
+{
+  _journal.clear();
+  _mark = _declarations.size();
+}
+
+void FunctorManager::parsingRevert()
+{
+  /* remove the new ones, then restore the replaced ones from last to first */
+  while (_declarations.size() > _mark)
+    _declarations.pop_back();
+  for (auto it = _journal.rbegin(); it != _journal.rend(); ++it)
+  {
+    if (it->first < _mark)
+    {
+      _declarations[it->first].functor = it->second;
+      _declarations[it->first].clearCache();
+    }
+  }
+  _journal.clear();
 }
 
 FunctorManager::Env FunctorManager::createEnv(Context& caller, unsigned id, const std::vector<Expression*>& pvals)
